@@ -692,6 +692,106 @@ def rule_r13(prog, res):
               Result)
 
 
+# ------------------------------------------------------------------ R14
+def rule_r14(prog, res):
+    res.rule('R14', 'fractions of a second become microseconds by rounding '
+             'the product (int(round(x * 1e6))), never by truncation or by '
+             'rounding before the multiplication')
+    inb = prog.module('spyne.protocol._inbase')
+    n = 0
+    for f in inb.functions.values():
+        for c in calls_in(f.node):
+            if not (isinstance(c.func, ast.Name) and c.func.id == 'int' and
+                    len(c.args) == 1):
+                continue
+            a = c.args[0]
+            txt = unparse(a)
+            if '1e6' not in txt.lower().replace('1000000.0', '1e6') and \
+                    '1000000' not in txt:
+                continue
+            n += 1
+            ok = isinstance(a, ast.Call) and call_name(a) == 'round' and \
+                a.args and isinstance(a.args[0], ast.BinOp) and isinstance(
+                a.args[0].op, ast.Mult) and len(a.args) == 1
+            where = '%s:%d' % (inb.relpath, c.lineno)
+            res.ob('R14', where, '%s: %s' % (f.qualname, unparse(c)[:60]),
+                   'ok' if ok else 'VIOLATED')
+            if not ok:
+                res.finding('R14', '%s|microseconds|%s' % (f.qualname,
+                                                           txt[:40]), where,
+                            '%s computes microseconds as %s: the product of '
+                            'a decimal fraction and 1e6 is not exact in '
+                            'binary floating point (0.000249 * 1e6 = '
+                            '248.99999...), so without rounding the product '
+                            'itself one microsecond is lost for a large '
+                            'share of the values' % (f.qualname,
+                                                     unparse(c)[:60]))
+    res.floor('R14', 'microsecond conversions', n, 3)
+
+
+# ------------------------------------------------------------------ R15
+def rule_r15(prog, res):
+    res.rule('R15', 'the decimal writer does no context-dependent '
+             'arithmetic; date/time writers and readers use the same format '
+             'attributes')
+    out = prog.cls('spyne.protocol._outbase:OutProtocolBase')
+    inb = prog.cls('spyne.protocol._inbase:InProtocolBase')
+    f = out.methods.get('decimal_to_unicode')
+    if f is None:
+        raise AnalysisError('OutProtocolBase.decimal_to_unicode', 'not found')
+    bad = [c for c in calls_in(f.node) if isinstance(c.func, ast.Attribute)
+           and c.func.attr in ('normalize', 'quantize', 'to_integral',
+                               'to_integral_value', 'scaleb', 'fma',
+                               'to_integral_exact', 'remainder_near')]
+    bad += [b for b in walk_no_defs(f.node) if isinstance(b, ast.BinOp) and
+            isinstance(b.op, (ast.Add, ast.Sub, ast.Mult, ast.Div)) and
+            'value' in unparse(b) and not isinstance(b.left, ast.Constant)]
+    res.ob('R15', f.where, 'decimal_to_unicode: %s' % (
+        'context arithmetic: %s' % [unparse(b)[:30] for b in bad] if bad
+        else 'no arithmetic on the value'), 'VIOLATED' if bad else 'ok')
+    for b in bad[:2]:
+        res.finding('R15', 'OutProtocolBase.decimal_to_unicode|context-'
+                    'arithmetic|%s' % unparse(b)[:30],
+                    '%s:%d' % (f.module.relpath, b.lineno),
+                    'decimal_to_unicode applies %s to the value: decimal '
+                    'arithmetic rounds to the active context precision (28 '
+                    'digits), so values with more significant digits are '
+                    'written as a different number' % unparse(b)[:40])
+    ACC = ('_get_time_format', '_get_date_format', '_get_datetime_format',
+           'time_format', 'date_format', 'dt_format', 'out_format')
+    n = 0
+    for w, r in (('time_to_unicode', 'time_from_unicode'),
+                 ('date_to_unicode', 'date_from_unicode'),
+                 ('datetime_to_unicode', 'datetime_from_unicode')):
+        fw, fr = out.methods.get(w), inb.methods.get(r)
+        if fw is None or fr is None:
+            continue
+        n += 1
+
+        def acc(fn):
+            got = set()
+            for x in ast.walk(fn.node):
+                if isinstance(x, ast.Attribute) and x.attr in ACC:
+                    got.add(x.attr)
+            return got
+        aw, ar = acc(fw), acc(fr)
+        norm = lambda s_: {a.replace('_get_', '').replace('datetime', 'dt')
+                           for a in s_} - {'out_format'}
+        extra = norm(aw) - norm(ar)
+        res.ob('R15', fw.where, '%s reads %s; %s reads %s' % (
+            w, sorted(aw) or 'no format attribute', r,
+            sorted(ar) or 'no format attribute'),
+            'VIOLATED' if extra else 'ok')
+        if extra:
+            res.finding('R15', 'OutProtocolBase.%s|format-asymmetry|%s' % (
+                w, sorted(extra)), fw.where,
+                '%s formats with %s but %s does not read that attribute: a '
+                'type customised with a format is written in a form '
+                'spyne\'s own reader rejects or reads as a different '
+                'value' % (w, sorted(extra), r))
+    res.floor('R15', 'date/time writer-reader pairs', n, 3)
+
+
 def run(prog, res, tier):
     res.run_rule(rule_r1, prog, res)
     res.run_rule(rule_r2_r7, prog, res, tier)
@@ -705,6 +805,8 @@ def run(prog, res, tier):
     res.run_rule(rule_r11, prog, res)
     res.run_rule(rule_r12, prog, res)
     res.run_rule(rule_r13, prog, res)
+    res.run_rule(rule_r14, prog, res)
+    res.run_rule(rule_r15, prog, res)
 
 
 _I = 'spyne/protocol/_inbase.py'
@@ -713,6 +815,26 @@ _B = 'spyne/model/binary.py'
 _S = 'spyne/protocol/soap/soap11.py'
 
 MUTANTS = [
+    Mutant('microseconds-round-before-multiply', 'R14', 'fire', _I,
+           in_func('_parse_datetime_iso_match',
+                   "int(round(float(usecond) * 1e6))",
+                   "int(round(float(usecond), 6) * 1e6)"), 'microseconds'),
+    Mutant('duration-microseconds-truncated', 'R14', 'fire', _I,
+           in_func('InProtocolBase.duration_from_unicode',
+                   "microseconds = int(round(1e6 * f))",
+                   "microseconds = int(1e6 * f)"), 'microseconds'),
+    Mutant('decimal-normalised', 'R15', 'fire', _O,
+           in_func('OutProtocolBase.decimal_to_unicode',
+                   "        return str(value)",
+                   "        value = D(value).normalize()\n"
+                   "        return str(value)"), 'context-arithmetic'),
+    Mutant('time-writer-honours-format', 'R15', 'fire', _O,
+           in_func('OutProtocolBase.time_to_unicode',
+                   "        return value.isoformat()",
+                   "        tf = self._get_time_format(self.get_cls_attrs("
+                   "cls))\n        if tf is not None:\n"
+                   "            return value.strftime(tf)\n"
+                   "        return value.isoformat()"), 'format-asymmetry'),
     Mutant('offset-hours-capped-at-12', 'R11', 'fire',
            'spyne/model/primitive/datetime.py',
            lambda src: src.replace(
